@@ -39,14 +39,13 @@ def sort_names(ll):
         if not sorted:
             # fallback
             sames = ''
-            for i in range(len(ll[0])):
+            for i in range(min(len(rn) for rn in ll)):
                 checking = ll[0][i]
-                for rn in ll[1:]:
-                    is_same = (rn[i] == checking)
-                if is_same:
+                if all(rn[i] == checking for rn in ll[1:]):
                     sames += checking
                 else:
                     break
+            sames = sames.rstrip('0123456789')
             print("Using prefix:", sames)
             ll.sort(key=lambda x: int(re.findall(r'\d+', x[len(sames):])[0]))
     return ll
